@@ -186,6 +186,53 @@ template <class S> static bool wArray(S& s, const std::string& ty, const std::st
 	return false;
 }
 
+// C arrays T[N] and char[N] buffers (StreamBuffer): N is a compile-time constant
+template <class T, int N> static void wCArrayN(StreamBuffer& s, const std::string& blob)
+{
+	T arr[N];
+	for (int i = 0; i < N; i++) {
+		U64 u = 0;
+		for (int j = 0; j < (int)sizeof(T); j++) u = (u << 8) | (unsigned char)blob[i * sizeof(T) + j];
+		T x = Conv<T>::of(u);
+		memcpy(&arr[i], &x, sizeof(T));
+	}
+	s << arr;
+}
+
+template <class T> static void wCArrayT(StreamBuffer& s, const std::string& blob)
+{
+	switch (blob.size() / sizeof(T)) {
+	case 1: wCArrayN<T, 1>(s, blob); break; case 2: wCArrayN<T, 2>(s, blob); break;
+	case 3: wCArrayN<T, 3>(s, blob); break; case 4: wCArrayN<T, 4>(s, blob); break;
+	case 5: wCArrayN<T, 5>(s, blob); break; case 6: wCArrayN<T, 6>(s, blob); break;
+	case 7: wCArrayN<T, 7>(s, blob); break; case 8: wCArrayN<T, 8>(s, blob); break;
+	}
+}
+
+static void wCArray(StreamBuffer& s, const std::string& ty, const std::string& blob)
+{
+#define X(n, T) if (ty == n && ty != "ch") { wCArrayT<T>(s, blob); return; }
+	FOR_TYPES(X)
+#undef X
+}
+
+template <int N> static void wCharBufN(StreamBuffer& s, const std::string& d)
+{
+	char buf[N];
+	memset(buf, 0, N);
+	memcpy(buf, d.data(), d.size() < (size_t)N ? d.size() : (size_t)N - 1);
+	s << buf;
+}
+
+static void wCharBuf(StreamBuffer& s, const std::string& d)
+{
+	switch (d.size() + 1) {
+#define C(N) case N: wCharBufN<N>(s, d); break;
+	C(1) C(2) C(3) C(4) C(5) C(6) C(7) C(8) C(9) C(10) C(11) C(12) C(13) C(14) C(15) C(16)
+#undef C
+	}
+}
+
 // array variables: the same Array<T> object written several times
 enum { NSLOT = 4 };
 template <class T> struct Slot { static Array<T> a[NSLOT]; };
@@ -335,9 +382,10 @@ template <class S> static std::string writeOn(S& s, const Toks& t)
 		for (size_t i = 1; i < t.size(); i++) { std::string d = unhex(t[i]); if (a[(int)i - 1].length() != (int)d.size() || memcmp(*a[(int)i - 1], d.data(), d.size())) return "err array-argument-modified-by-the-write"; }
 		return observe();
 	}
-	if ((op == "wb" || op == "ws" || op == "wz") && t.size() == 2) {
+	if ((op == "wb" || op == "ws" || op == "wz" || op == "wc") && t.size() == 2) {
 		if (!validHex(t[1])) return "bad-op";
 		Exact d(unhex(t[1]));
+		if (op == "wc") { char* p = d.p; s << p; return observe(); } // a non-const pointer to a C string
 		if (op == "wb") { ByteArray a((const byte*)d.p, (int)d.n); s << a; }
 		else if (op == "ws") { String x(d.p, (int)d.n); s << x; }
 		else s << (const char*)d.p;
@@ -441,6 +489,25 @@ static std::string step1(const Toks& t)
 		setSlot((int)(num(t[1]) % NSLOT), t[2], blob);
 		return "ok";
 	}
+	if (op == "wca" && t.size() == 2) {
+		if (st.reading) return "closed";
+		if (!validHex(t[1])) return "bad-op";
+		std::string d = unhex(t[1]);
+		if (d.size() > 15) return "bad-op";
+		if (st.kind != K_SB) return "na";
+		wCharBuf(*st.sb, d);
+		return observe();
+	}
+	if (op == "wcarr" && t.size() == 3) {
+		if (st.reading) return "closed";
+		int w = widthOf(t[1]);
+		if (!w || !validHex(t[2]) || t[1] == "ch") return "bad-op"; // char[N] is a C string (wc / wca)
+		std::string blob = unhex(t[2]);
+		if (blob.size() % w || blob.empty() || blob.size() / w > 8) return "bad-op";
+		if (st.kind != K_SB) return "na";
+		wCArray(*st.sb, t[1], blob);
+		return observe();
+	}
 	if (op == "wself" || op == "wselfpart") {
 		if (st.reading) return "closed";
 		if (st.kind != K_SB) return "na";
@@ -461,7 +528,7 @@ static std::string step1(const Toks& t)
 		}
 		return "bad-op";
 	}
-	bool isWrite = op == "was" || op == "wv" || op == "endian" || op == "w" || op == "wa" || op == "wb" || op == "ws" || op == "wz";
+	bool isWrite = op == "wc" || op == "was" || op == "wv" || op == "endian" || op == "w" || op == "wa" || op == "wb" || op == "ws" || op == "wz";
 	if (isWrite) {
 		if (st.reading) return "closed";
 		if (st.kind == K_SB) return writeOn(*st.sb, t);
